@@ -84,32 +84,34 @@ TextOf(v) ==
     [] v.t = "neg" -> <<45>> \o TextOf(v.v)
     [] OTHER -> Unrelated
 
-\* ---- the proof of a generated key: counts and answers
-NChal == Rounds[1] + Rounds[2] + Rounds[3]
-Answer(k, g) == IF StageOfChallenge(g) = 1 THEN Inv1(k, g) ELSE Root(ChT(k, g), 0, 1)
+\* ---- proofs: counts and answers.  ver = 0: the proof made by generate(); ver > 0: a proof the owner makes again
+\* (other counts, other y) - its challenges are another chain, its answers unrelated to those of version 0
 Num(n) == [t |-> "cst", n |-> n]
-GenProof(k) ==
-  IF KeyAttr[k].nizk
-  THEN <<Num(Rounds[1])>> \o [g \in 1..Rounds[1] |-> Answer(k, g)]
-       \o <<Num(Rounds[2])>> \o [g \in 1..Rounds[2] |-> Answer(k, Rounds[1] + g)]
-       \o <<Num(Rounds[3])>> \o [g \in 1..Rounds[3] |-> Answer(k, Rounds[1] + Rounds[2] + g)]
-  ELSE <<Num(Rounds[1]), Num(Rounds[2]), Num(Rounds[3])>>
-\* what a token is for the checker of the statement (M, y): see RabinKey!AnswerOK
-TokOf(M, same, tx) ==
-  LET r == Res(M, tx)  iv == IntId(tx) IN
-  [n |-> IF iv.t = "cst" THEN iv.n ELSE -1,
-   i |-> IF ~same THEN 0 ELSE IF r.c = "inv" THEN r.g ELSE IF r.c = "root" /\ r.x.t = "ch" THEN r.x.d ELSE 0,
-   c |-> IF ~same THEN "no"
-         ELSE IF r.c = "inv" THEN (IF r.s = 1 THEN "eq" ELSE "sq")
-         ELSE IF r.c = "root" /\ r.x.t = "ch" THEN (IF r.rho = 0 /\ r.s = 1 THEN "eq" ELSE "sq")
-         ELSE "no"]
+AnswerT(k, g, stage, ver) == IF stage = 1 THEN Inv1(k, g, ver) ELSE Root(ChT(k, g, stage, ver), 0, 1)
+ProofFor(k, cn, ver) ==
+  <<Num(cn[1])>> \o [g \in 1..cn[1] |-> AnswerT(k, g, 1, ver)]
+  \o <<Num(cn[2])>> \o [g \in 1..cn[2] |-> AnswerT(k, cn[1] + g, 2, ver)]
+  \o <<Num(cn[3])>> \o [g \in 1..cn[3] |-> AnswerT(k, cn[1] + cn[2] + g, 3, ver)]
+GenProof(k) == IF KeyAttr[k].nizk THEN ProofFor(k, Rounds, 0) ELSE <<Num(Rounds[1]), Num(Rounds[2]), Num(Rounds[3])>>
+\* what a token is for the checker of a statement whose honest proof is version ver: see RabinKey!AnswerOK
+TokOf(M, same, ver, tx) ==
+  LET r == Res(M, tx)  iv == IntId(tx)
+      isinv == r.c = "inv" /\ r.ver = ver
+      isroot == r.c = "root" /\ r.x.t = "ch" /\ r.x.salt = ver
+      rel == same /\ (isinv \/ isroot)
+  IN [n |-> IF iv.t = "cst" THEN iv.n ELSE -1,
+      i |-> IF ~rel THEN 0 ELSE IF isinv THEN r.g ELSE r.x.d,
+      st |-> IF ~rel THEN 0 ELSE IF isinv THEN 1 ELSE r.x.st,
+      c |-> IF ~rel THEN "no"
+            ELSE IF isinv THEN (IF r.s = 1 THEN "eq" ELSE "sq")
+            ELSE (IF r.rho = 0 /\ r.s = 1 THEN "eq" ELSE "sq")]
 
 \* ---- key objects
 DataId(O) == [t |-> "keydata", name |-> O.name, email |-> O.email, ty |-> O.ty, m |-> IntId(O.m), y |-> IntId(O.y),
               nzmagic |-> O.nzmagic, nz |-> O.nz]
 SelfSigOver(k, did, salt) ==
   LET v == Root(PadT(k, did, salt), 0, 1) IN [nf |-> 3, magic |-> "sig", kid |-> IdText(TextOf(v), IdLen), v |-> v]
-KeyBody(k) == [k |-> k, nf |-> 10, magic |-> "pub", name |-> "n", email |-> "e",
+KeyBody(k) == [k |-> k, nf |-> 10, magic |-> "pub", name |-> "n", email |-> "e", ref |-> [m |-> Mk(k), y |-> Yk(k), ver |-> 0],
                ty |-> [size |-> KeyAttr[k].size, nizk |-> KeyAttr[k].nizk, alt |-> FALSE],
                m |-> Mk(k), y |-> Yk(k), nzmagic |-> "nzk", nz |-> GenProof(k)]
 KeyObj(k) == KeyBody(k) @@ [sig |-> SelfSigOver(k, DataId(KeyBody(k)), 0)]
@@ -133,11 +135,11 @@ OddClass(O) == LET mi == IntId(O.m) IN
     [] OTHER -> TRUE
 KeyProj(O, jac) ==
   LET M == IntId(O.m)
-      same == M = Mk(O.k) /\ IntId(O.y) = Yk(O.k)
+      same == M = O.ref.m /\ IntId(O.y) = O.ref.y
   IN [nf |-> O.nf, magic |-> O.magic, mnum |-> IsNum(O.m), ynum |-> IsNum(O.y),
       jac |-> jac, odd |-> OddClass(O), prime |-> FALSE, tnizk |-> O.ty.nizk,
       mid |-> M, bits |-> IF M.t = "cst" THEN 1 ELSE BitsOf(O.k), did |-> DataId(O),
-      nzmagic |-> O.nzmagic, nz |-> [j \in 1..Len(O.nz) |-> TokOf(M, same, O.nz[j])],
+      nzmagic |-> O.nzmagic, nz |-> [j \in 1..Len(O.nz) |-> TokOf(M, same, O.ref.ver, O.nz[j])],
       sig |-> [nf |-> O.sig.nf, magic |-> O.sig.magic, kid |-> O.sig.kid, val |-> ValProj(M, O.sig.v)],
       sid |-> TextOf(O.sig.v), sidok |-> O.sig.nf >= 3 /\ O.sig.magic = "sig"]
 
@@ -148,6 +150,13 @@ EntPos(k, s, last) == CntPos(k, s) + (IF last THEN Rounds[s] ELSE 1)
 Without(sq, j) == SubSeq(sq, 1, j - 1) \o SubSeq(sq, j + 1, Len(sq))
 
 \* ---- mutations of a key text: f field, mu mutation
+\* the owner proves again: other round counts (fewer than required must be refused, more are fine), another
+\* admissible y (4y), or the same statement once more
+ReproveCounts == [same |-> Rounds, newy |-> Rounds,
+                  short1 |-> <<Rounds[1] - 1, Rounds[2], Rounds[3]>>, short2 |-> <<Rounds[1], Rounds[2] - 1, Rounds[3]>>,
+                  short3 |-> <<Rounds[1], Rounds[2], Rounds[3] - 1>>, one1 |-> <<1, Rounds[2], Rounds[3]>>,
+                  long1 |-> <<Rounds[1] + 1, Rounds[2], Rounds[3]>>, long2 |-> <<Rounds[1], Rounds[2] + 1, Rounds[3]>>,
+                  long3 |-> <<Rounds[1], Rounds[2], Rounds[3] + 1>>]
 KeyNumMutsM == {"lead0", "space", "plus1", "otherres", "zero", "one", "neg", "double", "oversized", "half", "empty",
                 "nonnum", "foreign"}
 KeyNumMutsY == {"lead0", "space", "plusm", "comp", "neg", "zero", "one", "mm1", "m", "times4", "four", "jm1",
@@ -157,7 +166,7 @@ EntMuts == {"lead0", "space", "plusm", "minusm", "comp", "neg", "otherroot", "ze
 CntMuts == {"dec", "deconly", "inconly", "zero", "nonnum", "lead0", "minus1"}
 SigValMuts == {"lead0", "space", "neg", "comp", "plusm", "plus1", "otherroot", "zero", "empty"}
 KeyFields == {"magic", "name", "email", "type", "m", "y", "nzmagic", "cnt1", "cnt2", "cnt3",
-              "ent1f", "ent1l", "ent2f", "ent2l", "ent3f", "ent3l", "sig.magic", "sig.kid", "sig.val", "sig", "struct"}
+              "ent1f", "ent1l", "ent2f", "ent2l", "ent3f", "ent3l", "proof", "sig.magic", "sig.kid", "sig.val", "sig", "struct"}
 StageOfField(f) == IF f \in {"cnt1", "ent1f", "ent1l"} THEN 1 ELSE IF f \in {"cnt2", "ent2f", "ent2l"} THEN 2 ELSE 3
 KeyMutsOf(k, f) ==
   CASE f = "magic" -> {"alt", "empty"}
@@ -169,12 +178,13 @@ KeyMutsOf(k, f) ==
     [] f \in {"cnt1", "cnt2", "cnt3"} -> IF KeyAttr[k].nizk THEN CntMuts ELSE CntMuts \ {"dec"}
     [] f \in {"ent1f", "ent1l"} -> IF KeyAttr[k].nizk THEN EntMuts \ {"otherroot"} ELSE {}
     [] f \in {"ent2f", "ent2l", "ent3f", "ent3l"} -> IF KeyAttr[k].nizk THEN EntMuts ELSE {}
+    [] f = "proof" -> IF KeyAttr[k].nizk THEN DOMAIN ReproveCounts ELSE {}
     [] f = "sig.magic" -> {"alt"}
     [] f = "sig.kid" -> {"chrL", "short4", "id0"}
     [] f = "sig.val" -> SigValMuts
     [] f = "sig" -> {"negfix", "otherrootfix", "drop", "foreign"}
     [] f = "struct" -> {"trunc6", "nodelim"}
-Resignable(f) == f \in {"name", "email", "type", "y", "nzmagic", "cnt1", "cnt2", "cnt3",
+Resignable(f) == f \in {"name", "email", "type", "y", "nzmagic", "cnt1", "cnt2", "cnt3", "proof",
                         "ent1f", "ent1l", "ent2f", "ent2l", "ent3f", "ent3l"}
 MutKey(O, f, mu) ==
   LET k == O.k IN
@@ -200,6 +210,9 @@ MutKey(O, f, mu) ==
          CASE mu = "swapnext" -> [O EXCEPT !.nz = [O.nz EXCEPT ![p] = O.nz[nb], ![nb] = O.nz[p]]]
            [] mu = "drop" -> [O EXCEPT !.nz = Without(O.nz, p)]
            [] OTHER -> [O EXCEPT !.nz[p] = MutNum(O.nz[p], mu, k)]
+    [] f = "proof" ->
+         LET y2 == IF mu = "newy" THEN MutNum(O.y, "times4", k) ELSE O.y IN
+         [O EXCEPT !.y = y2, !.ref = [m |-> Mk(k), y |-> IntId(y2), ver |-> 1], !.nz = ProofFor(k, ReproveCounts[mu], 1)]
     [] f = "sig.magic" -> [O EXCEPT !.sig.magic = "sih"]
     [] f = "sig.kid" -> LET sid == TextOf(O.sig.v) IN
          CASE mu = "chrL" -> [O EXCEPT !.sig.kid = SubSeq(O.sig.kid, 1, Len(O.sig.kid) - 1) \o <<33>>]
@@ -215,11 +228,17 @@ MutKey(O, f, mu) ==
 Resign(O) == [O EXCEPT !.sig = SelfSigOver(O.k, DataId(O), 1)]
 
 \* ---- signatures and ciphertexts on the wire
-DataClasses == IF T THEN {"empty", "one", "short", "pipe", "nul", "long"} ELSE {"empty", "short", "pipe", "long"}
+DataClasses == {[c |-> x] : x \in IF T THEN {"empty", "one", "short", "pipe", "nul", "long"} ELSE {"empty", "short", "pipe", "nul", "long"}}
+Short == [c |-> "short"]
 DataRels == {"same", "flip", "append", "chop", "empty"}
-RelApplies(d, rel) == (d = "empty") => rel \in {"same", "append"}
-Did(d, rel) == [t |-> "data", d |-> d, rel |-> rel]
+IsLen(d) == DOMAIN d = {"len"}
+DName(d) == IF IsLen(d) THEN "len" ELSE d.c
+DLen(d) == IF IsLen(d) THEN d.len ELSE -1
+RelApplies(d, rel) == (DName(d) = "empty" \/ DLen(d) = 0) => rel \in {"same", "append"}
+Did(d, rel) == [t |-> "data", d |-> d, rel |-> rel]          \* d: a class name or [len |-> n] (n bytes)
 SigObj(k, d, salt, rho, s) == [nf |-> 3, magic |-> "sig", kid |-> IdText(SidOf(k), IdLen), v |-> Root(PadT(k, Did(d, "same"), salt), rho, s)]
+\* all message lengths: the hashed string is data || salt (20 bytes); lengths around the block boundaries of the hash
+Lengths == IF T THEN 0..200 ELSE {0, 1, 2, 3, 35, 36, 43, 44, 45, 99, 100, 107, 108}
 EncObj(k, v, r) == [nf |-> 3, magic |-> "enc", kid |-> IdText(SidOf(k), IdLen), v |-> SqV(EncT(k, v, r))]
 WireProj(M, W) == [nf |-> W.nf, magic |-> W.magic, kid |-> W.kid, val |-> ValProj(M, W.v)]
 
@@ -286,7 +305,7 @@ VerifyCase(c) ==
       acc == VerifyOK(pad, KView(kv), Did(c.d, c.rel), WireProj(Mk(kv), W2))
   IN [op |-> "verify", key |-> k, size |-> KeyAttr[k].size, nizk |-> KeyAttr[k].nizk,
       okey |-> OtherKey(k), osize |-> KeyAttr[OtherKey(k)].size, onizk |-> KeyAttr[OtherKey(k)].nizk,
-      d |-> c.d, salt |-> c.salt, root |-> RootIx(c.root), f |-> c.f, mu |-> c.mu, pos |-> c.pos, kv |-> c.kv, rel |-> c.rel,
+      d |-> DName(c.d), dlen |-> DLen(c.d), salt |-> c.salt, root |-> RootIx(c.root), f |-> c.f, mu |-> c.mu, pos |-> c.pos, kv |-> c.kv, rel |-> c.rel,
       exp |-> IF acc THEN "acc" ELSE "ref",
       eqv |-> c.mu # "none" /\ acc,
       thm |-> /\ (c.mu = "none" /\ c.kv = "same" /\ c.rel = "same") => acc              \* signatures verify
@@ -348,8 +367,9 @@ CheckCase(c) ==
                     /\ O2.magic = "pub" /\ O2.name = O.name /\ O2.email = O.email /\ O2.ty = O.ty
                     /\ IntId(O2.m) = Mk(k) /\ IntId(O2.y) = Yk(k) /\ O2.nzmagic = O.nzmagic /\ O2.nz = O.nz
                     /\ SameSquare(Mk(k), O2.sig.v, O.sig.v)
-              /\ (known /\ acc /\ O2.ty.nizk) =>                                    \* what the owner can alter
+              /\ (known /\ acc /\ O2.ty.nizk /\ c.f # "proof") =>                    \* what the owner can alter
                     /\ IntId(O2.m) = Mk(k) /\ IntId(O2.y) = Yk(k) /\ O2.nzmagic = "nzk" /\ proofEquivalent
+              /\ c.f = "proof" => (acc <=> \A s \in 1..3 : ReproveCounts[c.mu][s] >= Rounds[s])   \* fewer rounds are refused
               /\ (acc /\ jc # 2) => jc = 1
               /\ IntId(O2.m) # Mk(k) => (known /\ ~acc)                              \* an altered modulus is refused
               /\ (c.f \in {"cnt1", "cnt2", "cnt3"} /\ c.mu \in {"dec", "deconly", "zero"} /\ O2.ty.nizk) => ~acc]
@@ -361,11 +381,13 @@ PtClasses == {"zero", "ff", "rnd", "text"}
 RClasses == {"rnd", "zero", "ff", "topzero"}
 SigKeys == KeyNames
 EncKeys == {k \in KeyNames : TRUE}
+LenObjects(k) == IF k = "A" THEN {[d |-> [len |-> n], salt |-> "rnd", root |-> <<n % 2, 1 - 2 * ((n \div 2) % 2)>>] : n \in Lengths} ELSE {}
 VObjects(k) ==          \* objects: [d, salt, root]
+  LenObjects(k) \cup
   IF T THEN {[d |-> d, salt |-> s, root |-> r] : d \in DataClasses, s \in SaltClasses, r \in Roots4}
-  ELSE {[d |-> "short", salt |-> "rnd", root |-> r] : r \in Roots4}
+  ELSE {[d |-> Short, salt |-> "rnd", root |-> r] : r \in Roots4}
        \cup {[d |-> d, salt |-> "rnd", root |-> r] : d \in DataClasses, r \in {<<0, 1>>, <<1, -1>>}}
-       \cup {[d |-> "short", salt |-> "topzero", root |-> r] : r \in {<<0, -1>>, <<1, 1>>}}
+       \cup {[d |-> Short, salt |-> "topzero", root |-> r] : r \in {<<0, -1>>, <<1, 1>>}}
 \* uses of an object: [f, mu, kv, rel]; "full" objects get the whole catalogue, the others a selection
 VUses(k, o, full) ==
   LET rels == {r \in DataRels : RelApplies(o.d, r)}
@@ -381,7 +403,7 @@ VUses(k, o, full) ==
           THEN {[f |-> "enc", mu |-> "byte", pos |-> p, kv |-> "same", rel |-> "same"] : p \in EncPositions(k, FALSE)}
                \cup {[f |-> "enc", mu |-> "top", pos |-> 0, kv |-> "same", rel |-> "same"]}
           ELSE {})
-VFull(k, o) == T \/ (o.d = "short" /\ o.salt = "rnd" /\ o.root \in {<<0, 1>>, <<1, -1>>} /\ k \in {"A", "B"})
+VFull(k, o) == ~IsLen(o.d) /\ (T \/ (o.d = Short /\ o.salt = "rnd" /\ o.root \in {<<0, 1>>, <<1, -1>>} /\ k \in {"A", "B"}))
 
 DObjects(k) == IF T THEN {[pt |-> p, r |-> r] : p \in PtClasses, r \in RClasses}
                ELSE {[pt |-> p, r |-> "rnd"] : p \in PtClasses} \cup {[pt |-> "rnd", r |-> r] : r \in RClasses}
@@ -401,7 +423,7 @@ DFull(k, o) == T \/ (o.pt = "rnd" /\ o.r = "rnd")
 CUses(k) ==
   {[f |-> "none", mu |-> "none", resign |-> FALSE], [f |-> "none", mu |-> "none", resign |-> TRUE]} \cup
   {[f |-> f, mu |-> mu, resign |-> rs] : f \in KeyFields, mu \in UNION {KeyMutsOf(k, g) : g \in KeyFields}, rs \in BOOLEAN}
-CUseOK(k, u) == u.mu = "none" \/ (u.mu \in KeyMutsOf(k, u.f) /\ (u.resign => Resignable(u.f)))
+CUseOK(k, u) == u.mu = "none" \/ (u.mu \in KeyMutsOf(k, u.f) /\ (u.resign => Resignable(u.f)) /\ (u.f = "proof" => u.resign))
 \* quick tier: the expensive refusals late in the proof are sampled for the smallest key only
 CQuick(k, u) == T \/ k = "A" \/ u.f \notin {"ent1f", "ent1l", "ent2f", "ent2l", "ent3f", "ent3l"}
 
